@@ -166,7 +166,6 @@ def observe(case):
         pre = [json.dumps({'jsonrpc': '2.0', 'id': 0, 'method': first, 'params': case['inp']})]
         text = json.dumps({'jsonrpc': '2.0', 'id': 1, 'method': other, 'params': case['inp']})
         out, events = dispenv.run(cfg, case['async'], text, CTXS[0], pre=pre)
-        events = [[e[0], other] + e[2:] if e[0] == 'call' else e for e in events]     # the body logs one fixed name
         return {'load': ('ok', json.loads(text)), 'out': out, 'events': events}
     text = json.dumps({'jsonrpc': '2.0', 'id': 1, 'method': 'f', 'params': case['inp']})
     out, events = dispenv.run(cfg, case['async'], text, CTXS[case.get('ctxv', 0)])
